@@ -33,6 +33,13 @@ def main():
     tempfile.tempdir = tmp
     report = common.Report(args.prop, tier, seed)
     replay = json.load(open(args.replay)) if args.replay else None
+    if replay is not None and (replay.get('kind') == 'proof-or-correspondence' or 'input' not in replay):
+        # a replay that names a theorem / correspondence which no longer checked: there is no single input to run again, the
+        # whole check is repeated with the recorded tier and seed
+        tier = replay.get('tier', tier) if replay.get('tier') in ('quick', 'thorough') else tier
+        seed = replay.get('seed', seed)
+        report = common.Report(args.prop, tier, seed)
+        replay = None
     import registry
     entry = registry.REGISTRY.get(args.prop)
     if entry is None:
@@ -41,6 +48,14 @@ def main():
     try:
         common.proof_stage(report, args.prop)
         entry(args.prop, report, tier, seed, replay)
+        if (replay is not None and replay.get('kind') == 'monitor' and not report.violations and not report.broken
+                and not os.environ.get('LV_REPLAY_ISOLATED_ONLY')):
+            # The recorded input did not fail on its own: the failure may depend on what the process had done before it (state
+            # kept across calls) or on the inputs around it.  The whole check is run again with the recorded tier and seed; it
+            # regenerates the same inputs in the same order.
+            report.notes.append('the recorded input was quiet in isolation; the check was re-run with the recorded tier and seed')
+            entry(args.prop, report, replay.get('tier', tier) if replay.get('tier') in ('quick', 'thorough') else tier,
+                  replay.get('seed', seed), None)
     except Exception as e:   # the check itself failed: never report success
         import traceback
         report.broke(f'check machinery error: {type(e).__name__}: {e}', traceback.format_exc())
